@@ -19,6 +19,12 @@ theorem formatTrivia_newline_terminated (ts : List Trivia) (i : Nat) (h : CommaF
     formatTrivia ts i = [] ∨ endsWithNL (formatTrivia ts i) = true :=
   formatTrivia_nil_or_nl ts i h
 
+/-- The same for EVERY trivia list, `,` sentinels of formals included (there the output is not a
+    flatMap: a sentinel looks at its successor and at what was written before). -/
+theorem formatTrivia_newline_terminated_all (ts : List Trivia) (i : Nat) :
+    formatTrivia ts i = [] ∨ endsWithNL (formatTrivia ts i) = true :=
+  formatTrivia_nil_or_nl_all ts i
+
 /-- It is empty exactly when the list consists of line-break markers only. -/
 theorem formatTrivia_empty_iff (ts : List Trivia) (i : Nat) (h : CommaFree ts) :
     formatTrivia ts i = [] ↔ ts.all (· == .linebreak) = true :=
@@ -123,6 +129,8 @@ def sampleTrivia : List Trivia :=
 
 example : CommaFree sampleTrivia ∧ TokenLikeTrivia sampleTrivia := by decide
 example : formatTrivia sampleTrivia 2 = "\n# c\n  /* a\n     b */\n".toList := by decide
+example : formatTrivia [.comma, .comment { text := "c".toList, inline := true }, .linebreak, .comma] 2
+    = "  , # c\n  ,\n".toList := by decide
 example : leavesOpenComment sampleTrivia = true := by decide
 example : applyTrailingTrivia "x = 1;".toList sampleTrivia 2 = "x = 1;\n\n# c\n  /* a\n     b */".toList := by decide
 example : applyTrailingTrivia "x = 1;".toList [.comment { text := "c".toList, inline := true }, .linebreak] 2
